@@ -688,7 +688,22 @@ fn spec_probe_names(spec: &CheckSpec) -> Vec<&'static str> {
         v.extend(["fault.root_call_abandoned", "fault.clock_skew", "fault.stall"]);
     }
     if has("stubs") {
-        v.extend(["fault.stub_call_abandoned", "probe.concurrent_stub_calls"]);
+        v.extend(["fault.stub_call_abandoned"]);
+    }
+    if spec.gens.iter().any(|g| g.name == "stubs") {
+        v.extend(["probe.concurrent_stub_calls", "probe.stub_rendered_with_debug"]);
+    }
+    if has("client.") {
+        v.extend(["fault.waker_churn"]);
+    }
+    if has("server.general") || has("server.cancel") || has("server.limit") {
+        v.extend(["fault.handler_panic_contained"]);
+    }
+    if has("server.limit") {
+        v.extend(["probe.two_limits_on_one_channel", "probe.limit_from_listener_default"]);
+    }
+    if has("bytes.roundtrip") {
+        v.extend(["probe.message_refused_by_narrow_framing"]);
     }
     v.sort();
     v.dedup();
